@@ -7,15 +7,11 @@ RULE = ("pairs of Hash calls on related inputs, the second input computed by the
         "non-trivial = the two inputs differ (or the RNA/DNA clause) and length >= 2; distinct by case text")
 EXHAUSTIVE = {"quick": False, "thorough": True}
 TRUSTED_BASE = ["Base/Blake3.lean instantiates the digest parameter for the correspondence only; it is compared with the vendored Go BLAKE3 on every run",
-                "C04 is stated over the arg-min least rotation, i.e. modulo C12"]
+                "the clauses are proved over the arg-min least rotation and transferred to the Booth-loop model by C12 (Props/C12Booth.booth_least): model_hash_* in Props/C04"]
 ASSUMPTIONS = ["inputs are ASCII (the model's upper-casing is Go's strings.ToUpper only on ASCII; the theorems themselves need no ASCII hypothesis)",
                "the theorems hold for every digest function; nothing about BLAKE3 is assumed",
                "strand clause: the normalised sequence is over the 15 IUPAC codes (U only under RNA) - the property's own quantifier, hypothesis Iupac15 (norm ty s) of hash_strand"]
-PARTIAL = ["all four clauses are proved at full strength for hashSpec = the Hash model whose rotation step is the arg-min least rotation "
-           "(Props/C04: hash_rot, hash_strand, hash_case, hash_rna_dna; hash_case also for every rotation function). For the circular cases, "
-           "identifying the code's rotation step (Booth-loop model Seqhash.rotateSequence) with the arg-min is C12's booth_least, which lives in the "
-           "other worker's module Props/C12Booth.lean. The one-line composition 'hash = hashSpec' (C04.hashWith_congr applied to booth_least) is "
-           "deliberately not instantiated in Props/C04 (no dependency on that module); remove this entry once that corollary is added."]
+PARTIAL = []
 
 PROT = "ACDEFGHIKLMNPQRSTVWYUO*BXZ"
 
